@@ -54,7 +54,7 @@ func init() {
 			}
 			return cs
 		},
-		RunCase:     c17Run,
+		RunCase: c17Run,
 	})
 }
 
